@@ -8,6 +8,7 @@
 from __future__ import annotations
 
 import asyncio
+import copy
 import logging
 from abc import ABC
 from collections import deque
@@ -875,11 +876,18 @@ class _BaseHOFormulaBuilder(ABC, Generic[FormulaEngineT, QuantityT]):
         self._steps.append((TokenType.COMPONENT_METRIC, engine))
         self._create_method: Callable[[float], QuantityT] = create_method
 
+    def _copy(self) -> Self:
+        """Return a copy of this builder, so that operators don't modify their operands."""
+        builder = copy.copy(self)
+        builder._steps = self._steps.copy()  # pylint: disable=protected-access
+        return builder
+
     def _push(
         self,
         oper: str,
         other: Self | FormulaEngineT | QuantityT | float,
     ) -> Self:
+        self = self._copy()  # pylint: disable=self-cls-assignment
         self._steps.appendleft((TokenType.OPER, "("))
         self._steps.append((TokenType.OPER, ")"))
         self._steps.append((TokenType.OPER, oper))
@@ -1016,6 +1024,7 @@ class _BaseHOFormulaBuilder(ABC, Generic[FormulaEngineT, QuantityT]):
             A formula builder that can take further expressions, or can be built
                 into a formula engine.
         """
+        self = self._copy()  # pylint: disable=self-cls-assignment
         self._steps.appendleft((TokenType.OPER, "("))
         self._steps.append((TokenType.OPER, ")"))
         self._steps.append((TokenType.OPER, "consumption"))
@@ -1033,6 +1042,7 @@ class _BaseHOFormulaBuilder(ABC, Generic[FormulaEngineT, QuantityT]):
             A formula builder that can take further expressions, or can be built
                 into a formula engine.
         """
+        self = self._copy()  # pylint: disable=self-cls-assignment
         self._steps.appendleft((TokenType.OPER, "("))
         self._steps.append((TokenType.OPER, ")"))
         self._steps.append((TokenType.OPER, "production"))
